@@ -1,6 +1,7 @@
 package rules
 
 import (
+	"go/token"
 	"go/types"
 	"strings"
 
@@ -396,6 +397,24 @@ func errNilFor(b *ssa.BasicBlock, call *ssa.Call) bool {
 		}
 		if e, ok := x.(*ssa.Extract); ok && e.Tuple == ssa.Value(call) && e.Index == ei {
 			return true
+		}
+		// the error was spilled into a variable (a named result whose address a deferred call takes): the load that
+		// is tested must see the store of this call's error, the last store to the variable before it in its block
+		if ld, ok := x.(*ssa.UnOp); ok && ld.Op == token.MUL {
+			if al, ok := ld.X.(*ssa.Alloc); ok {
+				var last ssa.Value
+				for _, in := range ld.Block().Instrs {
+					if in == ssa.Instruction(ld) {
+						break
+					}
+					if st, ok := in.(*ssa.Store); ok && st.Addr == ssa.Value(al) {
+						last = st.Val
+					}
+				}
+				if e, ok := last.(*ssa.Extract); ok && e.Tuple == ssa.Value(call) && e.Index == ei {
+					return true
+				}
+			}
 		}
 	}
 	return false
